@@ -11,7 +11,7 @@ use crate::bplustree::tree::DiskBPlusTree;
 use crate::checkpoint::{CheckpointMetadata, DatabaseCheckpoint};
 use crate::commit::{CommitEnv, CommitPipeline};
 use crate::compaction::compactor::{CompactionOptions, Compactor};
-use crate::compaction::CompactionStrategy;
+use crate::compaction::{CompactionChoice, CompactionStrategy};
 use crate::error::{BackgroundErrorHandler, BackgroundErrorReason, Result};
 use crate::levels::{write_manifest_to_disk, LevelManifest, ManifestChangeSet};
 use crate::lockfile::LockFile;
@@ -56,6 +56,13 @@ pub trait CompactionOperations: Send + Sync {
 
 	/// Returns true if there are immutable memtables pending flush.
 	fn has_pending_immutables(&self) -> bool;
+
+	/// Returns true if the strategy would still pick a compaction that moves
+	/// data to a deeper level. The level task keeps running rounds while this
+	/// holds: stalled writers cannot trigger the flush that would wake it again.
+	fn has_pending_compaction(&self, _strategy: &dyn CompactionStrategy) -> bool {
+		false
+	}
 }
 
 // ===== Core LSM Tree Implementation =====
@@ -929,6 +936,16 @@ impl CompactionOperations for CoreInner {
 
 	fn has_pending_immutables(&self) -> bool {
 		self.immutable_memtables.read().map(|guard| !guard.is_empty()).unwrap_or(false)
+	}
+
+	fn has_pending_compaction(&self, strategy: &dyn CompactionStrategy) -> bool {
+		let Ok(manifest) = self.level_manifest.read() else {
+			return false;
+		};
+		matches!(
+			strategy.pick_levels(&manifest),
+			Ok(CompactionChoice::Merge(input)) if input.source_level < input.target_level
+		)
 	}
 }
 
